@@ -43,7 +43,8 @@ def main():
     if has_demo:
         shutil.move(tmp_demo, demo_abs)
     # 2. demo fails with patch, passes without
-    run_cmd = meta.get("demo_run_cmd", "").replace("<worktree>", wt)
+    import re as _re
+    run_cmd = _re.split(r"\s{2,}\(", meta.get("demo_run_cmd", "").replace("<worktree>", wt))[0]   # drop a trailing remark
     if run_cmd:
         rc1, o1 = sh(run_cmd, cwd=(None if run_cmd.startswith("cd /") else (wt if run_cmd.startswith("cd ") else wt + "/daemon")))
         res["demo_fails_with_patch"] = rc1 != 0
